@@ -25,7 +25,13 @@ Mirrored code, branch by branch:
   must each verify when readable.
 * `signature_key_ids` (after fix 1e6a530): OPENPGP branch: per entry decode, parse, the issuer list of THAT
   signature must have exactly one element; legacy branch: RSA, then DSA, then PGP — the last readable tag
-  wins, even over an earlier one that parsed — exactly one issuer.
+  wins, even over an earlier one that parsed — exactly one issuer. Another count is reported as
+  `UnexpectedIssuerCount(n as u32)` through `try_into().unwrap()` (`issuerCountErr`: a panic from 2^32 issuers on).
+  The OPENPGP loop decodes base64 with an inline `Base64Decoder` of its own (`package.rs:297`), not `decode_sig`: the
+  model has ONE `b64dec`; the two sites are tied by the `vsig` / `sigpkts` runs of C02, which predict `verify_signature`
+  and `signature_key_ids` of the same package from the same decoding table.
+* `verifyWith` and C02's `Verify.verifySignatureS` mirror the same function: `Lemmas/Sign.lean:
+  verifyWith_eq_verifySignatureS` (same result, same error class).
 -/
 namespace RpmVerif.Sign
 open RpmVerif.Hdr RpmVerif.Gen RpmVerif.Digest
@@ -189,7 +195,7 @@ def verifyAll (S : SigScheme) (k : S.Key) (hb : Bytes) : List Bytes → Out Unit
   | [] => .ok ()
   | b64 :: rest =>
     match S.b64dec b64 with
-    | none => .err "b64"
+    | none => .err "base64"
     | some sig => if S.verify k hb sig then verifyAll S k hb rest else .err "verify"
 
 /-- `if let Ok(sig) = tag { verifier.verify(data, sig)? }` -/
@@ -215,11 +221,22 @@ def verifyWith (S : SigScheme) (md5 sha1 sha256 : Bytes → Bytes) (k : S.Key) (
 
 /-! ### `signature_key_ids` -/
 
+/-- `Error::UnexpectedIssuerCount(n.try_into().unwrap())` (`package.rs:308-310, 351-353`): the count is narrowed from
+`usize` to the `u32` the variant carries; the `unwrap` panics for a list of 2^32 or more issuers. The error class
+carries the count (the harness prints the variant's field). -/
+def issuerCountErr (n : Nat) : Out (List Bytes) :=
+  if n < 4294967296 then .err ("issuer-count:" ++ toString n) else .panic "issuer-count-u32"
+
 /-- `parse_signature(sig)?.issuer()` with the "exactly one issuer" test -/
 def oneIssuer (S : SigScheme) (sig : Bytes) : Out (List Bytes) :=
   match S.issuer sig with
   | none => .err "nosig"
-  | some ids => if ids.length ≠ 1 then .err "issuer-count" else .ok ids
+  | some ids => if ids.length ≠ 1 then issuerCountErr ids.length else .ok ids
+
+/-- every issuer list the OpenPGP layer returns has fewer than 2^32 entries (a v4 signature's two sub-packet areas hold
+at most 65535 bytes each; a v6 one's at most 2^32 - 1 bytes, ten per Issuer sub-packet): under it the `unwrap` of
+`issuerCountErr` is unreachable -/
+def SigScheme.IssuerSmall (S : SigScheme) : Prop := ∀ b ids, S.issuer b = some ids → ids.length < 4294967296
 
 /-- the loop over the OPENPGP entries -/
 def idsAll (S : SigScheme) : List Bytes → Out (List Bytes)
